@@ -186,7 +186,11 @@ func CheckRun(sc *Scenario, o *Outcome) ([]Diff, *RefInfo) {
 	hops := o.Run.Hops
 	// A length that differs from the reference always comes with a hop-level diff at the reference's or the
 	// run's destination index (missing hop, unbacked hop or destination flag), which names the property
-	// really at fault; C03 itself is about the internal shape, checked in CheckShape.
+	// at fault for that hop; the length itself is C03's ("up to the lowest TTL answered by the destination"):
+	// the reference ends at the lowest TTL for which a destination answer was read in time.
+	if len(hops) != len(ref) && !info.EndsEarly {
+		ds = append(ds, Diff{"C03", "length", fmt.Sprintf("%d entries from TTL %d, but the lowest TTL with a destination answer among the replies read is %d (0 = none; last TTL %d): want %d entries", len(hops), sc.MinTTL, info.DestTTL, sc.MaxTTL, len(ref))})
+	}
 	tol := sc.Poll()
 	for i := 0; i < len(hops) && i < len(ref); i++ {
 		h, r := hops[i], ref[i]
